@@ -35,7 +35,7 @@ ASSUMPTIONS = ["calls are atomic (no pre-emption inside a call); interleaving = 
                "capitalised colour names and lower-case residue keys are not generated (docstring and code disagree: ambiguity window)",
                "relative order of the space and the line break inside one gap is not asserted",
                "the default palette is whatever the pristine interpreter's aminoacids.DEFAULT_COLOR_PALETTE holds"]
-PROBES = ["reject_on_custom_palette", "reject_at_first_key", "reject_at_last_key", "render_len_gt_100",
+PROBES = ["caller_mutates_its_dict_after_update", "reject_on_custom_palette", "reject_at_first_key", "reject_at_last_key", "render_len_gt_100",
           "render_len_multiple_of_50", "new_object_after_foreign_update", "accept_with_extra_keys"]
 
 
@@ -67,8 +67,8 @@ def gen_plan(streams, tier):
     nobj = rnd.choice((1, 1, 2, 2, 3))
     objs = []
     for _ in range(nobj):
-        n = rnd.choice((rnd.randrange(1, 12), rnd.randrange(9, 62), rnd.choice((10, 11, 49, 50, 51, 100, 101)),
-                        rnd.randrange(50, 171)))
+        n = rnd.choice((rnd.randrange(1, 12), rnd.randrange(9, 62), rnd.choice((10, 11, 49, 50, 51, 100, 101, 150, 200, 201, 250)),
+                        rnd.randrange(50, 171), rnd.randrange(150, 320)))
         objs.append(gen_seq(rnd, n))
     ops = []
     nops = rnd.randrange(3, 25)
@@ -80,6 +80,8 @@ def gen_plan(streams, tier):
             if rnd.random() < 0.1:
                 pal[rnd.choice(("X", "B", "Z", "*", "a"))] = rnd.choice(COLOURS)
             op = {"k": "set", "o": rnd.randrange(nobj + 1), "pal": pal}
+            if rnd.random() < 0.3:
+                op["then_mutate"] = [rnd.choice(list(AA)), rnd.choice(COLOURS + ["pink"])]
             if rnd.random() < w_break:
                 op["pal"], op["j"], op["how"] = break_palette(rnd, pal, order)
             ops.append(op)
@@ -257,10 +259,15 @@ def execute(plan, ctx):
         pal = copy.deepcopy(op["pal"])
         valid = is_valid(pal)
         raised = None
+        passed = dict(pal)
         try:
-            objs[i].set_HTMLColorResiduePalette(pal)
+            objs[i].set_HTMLColorResiduePalette(passed)
         except Exception as e:
             raised = e
+        if op.get("then_mutate"):
+            # the caller goes on using its own dictionary afterwards: the object's palette must not follow
+            passed[op["then_mutate"][0]] = op["then_mutate"][1]
+            ctx.probe("caller_mutates_its_dict_after_update")
         ctx.count("updates")
         ctx.log.emit("set", o=i, valid=valid, j=op.get("j"), how=op.get("how"), raised=type(raised).__name__ if raised else None)
         ctx.sig("set", custom[i], op.get("j", "ok"), op.get("how", "-"), len(objs))
